@@ -234,9 +234,9 @@ TB_R = COMMON_TB + [
 SPECS["C20"] = dict(
     level="model_checking",
     technique="bounded symbolic execution of the real digest() functions with a pre-image-recording hash, and of real bincode round trips (Kani/CBMC, SAT)",
-    bounds="two arbitrary blocks with 0,1,2 payload digests each (equal lengths: injectivity; lengths 0/1, 1/2: separation); arbitrary votes, QCs, timeouts; all 32-byte fields and u64 rounds fully symbolic; Vote and Timeout round trips through the REAL bincode and base64 key encoding (Block: thorough tier; did not finish in 1500 s)",
-    outside="SHA-512/256 collision resistance (assumed: equal digests only for equal pre-images); payloads above 2; round trips of TCs and of blocks with more than 1 payload digest / 1 QC vote",
-    trusted_base=TB_R,
+    bounds="two arbitrary blocks with 0,1,2 payload digests each (equal lengths: injectivity; lengths 0/1, 1/2: separation); arbitrary votes, QCs, timeouts; all 32-byte fields and u64 rounds fully symbolic; Vote and Timeout round trips through the REAL bincode and base64 key encoding; Block (1 payload digest, 1-vote QC, 1-entry TC) round trip through the bincode shim (through the real bincode it ran out of 30 GB after 53 min and is not part of the check)",
+    outside="SHA-512/256 collision resistance (assumed: equal digests only for equal pre-images); payloads above 2; Block round trip through the real bincode crate (only through the shim); blocks with more than 1 payload digest / 1 QC vote / 1 TC entry in the round trip",
+    trusted_base=TB_R + ["kani/shims/bincode + ideal crypto types (c20_block_roundtrip_l only): same wire layout as bincode 1.3 default options on serde's traits"],
     assumptions=["the real hash is collision resistant: digests coincide only if pre-images do"],
     harnesses=[
         H("messages_r", "c20_block_inj_0_0", profile="R", timeout=900, symbolic="2 blocks, no payload: author, round, parent (32+8+32 bytes each)", asserts="equal pre-images => equal author, round, payload, parent; pre-image lengths of block / vote / timeout pairwise different"),
@@ -246,7 +246,7 @@ SPECS["C20"] = dict(
         H("messages_r", "c20_block_len_1_2", profile="R", timeout=900, symbolic="blocks with 1 and 2 payload digests", asserts="pre-images differ"),
         H("messages_r", "c20_vote_qc_timeout", profile="R", timeout=900, symbolic="2 votes, 2 timeouts", asserts="vote/QC digest binds (block, round); QC digest == digest its votes sign; timeout digest binds (round, high-QC round); kinds separated"),
         H("messages_r", "c20_vote_roundtrip", profile="R", timeout=900, mem_gb=20, stubbing=True, symbolic="vote fields", asserts="real bincode serialize->deserialize keeps fields and digest"),
-        H("messages_r", "c20_block_roundtrip", profile="R", tier="thorough", timeout=7200, mem_gb=30, stubbing=True, symbolic="block fields, 1 payload digest, 1 QC vote", asserts="real bincode round trip keeps fields and digest (the store / sync path encoding)"),
+        H("messages_h", "c20_block_roundtrip_l", timeout=900, mem_gb=16, symbolic="block fields, 1 payload digest, 1-vote QC, 1-entry TC (profile L: 4-byte keys, 8-byte digests, bincode shim with the same wire layout)", asserts="serialize->deserialize keeps every field and the digest (the store / sync path encoding)"),
         H("messages_r", "c20_timeout_roundtrip", profile="R", timeout=1200, mem_gb=20, stubbing=True, symbolic="timeout fields", asserts="real bincode round trip keeps fields and digest"),
     ],
 )
